@@ -87,3 +87,72 @@ theorem C08_unmasked_is_one_level (env : Env) (h : ProcH) (base : Base) (subpath
       = openStep env (fun _ _ => throw (.outOfFuel "unreachable")) h base subpath oflags := by
   rw [openH]
   exact openStep_unmasked env _ _ h base subpath oflags hns
+
+/-! ## The other entry points: `readlink` and `open_follow`
+
+They reach the retry only through `openH`, with the standard fuel.  Written with
+an explicit fuel they are the same programs for every fuel from 2 upwards: no
+lookup of any kind can use more than one additional handle. -/
+
+/-- `readlinkH` with the fuel of its `openH` made explicit -/
+def readlinkFuel (env : Env) (n : Nat) (h : ProcH) (base : Base) (subpath : Bytes) : M Bytes := do
+  let link ← openH env n h base subpath O_PATH
+  let r ← M.try' (Sys.readlinkat link [])
+  (Sys.close link : Prog Unit)
+  M.ofExcept r
+
+/-- `openFollowTail` with explicit fuel -/
+def openFollowTailFuel (env : Env) (n : Nat) (h : ProcH) (base : Base) (subpath : Bytes) (oflags : Nat) : M Fd := do
+  let (parent, trailing) ← (Path.pathSplit subpath : Except Err _)
+  match trailing with
+  | none => throw .invalidArgument
+  | some trailing =>
+    let parent ← openH env n h base parent (O_PATH ||| O_DIRECTORY)
+    let parentMnt ← (fetchMntId parent []).onErr (Sys.close parent)
+    (verifySameMnt parentMnt parent trailing).onErr (Sys.close parent)
+    let r ← M.try' (Sys.openatFollow parent trailing oflags 0)
+    (Sys.close parent : Prog Unit)
+    M.ofExcept r
+
+/-- `openFollowH` with explicit fuel -/
+def openFollowFuel (env : Env) (n : Nat) (h : ProcH) (base : Base) (subpath : Bytes) (oflags : Nat) : M Fd :=
+  let oflags := if (Path.stripTrailingSlash subpath).2 then oflags ||| O_DIRECTORY else oflags
+  let subpath := (Path.stripTrailingSlash subpath).1
+  if hasAny oflags (O_CREAT ||| O_EXCL) || hasAll oflags O_TMPFILE then throw .invalidArgument else do
+  match ← M.try' (readlinkFuel env n h base subpath) with
+  | .error e =>
+    if e = .os EINVAL ∨ e = .os ENOENT then openH env n h base subpath oflags
+    else if e = .os ENAMETOOLONG then openFollowTailFuel env n h base subpath oflags
+    else throw e
+  | .ok _ => openFollowTailFuel env n h base subpath oflags
+
+theorem openH_fuel (env : Env) (n : Nat) :
+    openH env (n + 2) = openH env retryFuel := by
+  funext h base subpath oflags
+  rw [C08_retry_depth_one, C08_standard_fuel]
+
+/-- the model's `readlinkH` is the explicit-fuel program at the standard fuel (definitional) -/
+theorem readlinkFuel_std (env : Env) : readlinkFuel env retryFuel = readlinkH env := rfl
+theorem openFollowTailFuel_std (env : Env) : openFollowTailFuel env retryFuel = openFollowTail env := rfl
+theorem openFollowFuel_std (env : Env) : openFollowFuel env retryFuel = openFollowH env := rfl
+
+/-- `ProcfsHandle::readlink` uses at most one additional handle: any fuel ≥ 2 gives the same program -/
+theorem C08_readlink_depth_one (env : Env) (n : Nat) (h : ProcH) (base : Base) (subpath : Bytes) :
+    readlinkFuel env (n + 2) h base subpath = readlinkH env h base subpath := by
+  rw [← readlinkFuel_std]
+  unfold readlinkFuel
+  rw [openH_fuel]
+
+/-- `ProcfsHandle::open_follow` likewise — through its probe, its direct lookup and its parent lookup -/
+theorem C08_open_follow_depth_one (env : Env) (n : Nat) (h : ProcH) (base : Base) (subpath : Bytes) (oflags : Nat) :
+    openFollowFuel env (n + 2) h base subpath oflags = openFollowH env h base subpath oflags := by
+  have hr : readlinkFuel env (n + 2) = readlinkFuel env retryFuel := by
+    funext h base subpath
+    rw [C08_readlink_depth_one, readlinkFuel_std]
+  have ht : openFollowTailFuel env (n + 2) = openFollowTailFuel env retryFuel := by
+    funext h base subpath oflags
+    unfold openFollowTailFuel
+    rw [openH_fuel]
+  rw [← openFollowFuel_std]
+  unfold openFollowFuel
+  rw [hr, ht, openH_fuel]
